@@ -147,6 +147,10 @@ class ScalarFunction:
                 self.g = approx_derivative(
                     fun_wrapped, self.x, f0=self.f, **finite_diff_options
                 )
+                # A variable with equal lower and upper bounds cannot move: the step
+                # fitted into the bounds is zero and the estimate is 0/0 = nan.
+                lb, ub = finite_diff_options["bounds"]
+                self.g[np.broadcast_to(np.equal(lb, ub), self.g.shape)] = 0.0
 
         self._update_grad_impl = update_grad
 
